@@ -7,7 +7,7 @@ Import ListNotations.
 Local Open Scope N_scope.
 Open Scope m_scope.
 
-Definition checkpoint := (epoch * root)%type.
+Notation checkpoint := (N * N)%type (only parsing).   (* (epoch, root) *)
 Definition cp_eqb (a b : checkpoint) : bool := (fst a =? fst b) && (snd a =? snd b).
 
 Record wrapper := mkW {
